@@ -54,6 +54,12 @@ func GroupByHelper(size int, underlying interface{}) (*groupBy, error) {
 	}
 
 	u := reflect.Indirect(reflect.ValueOf(underlying))
+	if u.Kind() == reflect.Array && !u.CanAddr() {
+		// an array passed by value cannot be sliced: work on an addressable copy
+		cp := reflect.New(u.Type()).Elem()
+		cp.Set(u)
+		u = cp
+	}
 	group := []reflect.Value{}
 
 	switch u.Kind() {
